@@ -691,8 +691,19 @@ class Selector(css_parser.util.Base2):
                         '>': 'child',
                         '+': 'adjacent-sibling',
                         '~': 'following-sibling'}
-                    if seq and seq[-1].value == S:
-                        seq.replace(-1, val, _names[val])
+                    # white space before the combinator is no combinator of
+                    # its own, even if comments are in between
+                    spaces = []
+                    for i in range(len(seq) - 1, -1, -1):
+                        if seq[i].type == 'descendant':
+                            spaces.append(i)
+                        elif not isinstance(seq[i].value,
+                                            css_parser.css.CSSComment):
+                            break
+                    if spaces:
+                        seq.replace(spaces[-1], val, _names[val])
+                        for i in spaces[:-1]:
+                            del seq[i]
                     else:
                         append(seq, val, _names[val], token=token)
                     return simple_selector_sequence
